@@ -74,6 +74,9 @@ def directed_cases(seed: int, tier: str) -> typing.List[dict]:
     for kind in ("filters", "tests", "globals"):
         for name in NAME_POOL[kind]:
             out.append({"label": "directed-add-%s-%s" % (kind, name), "dsdl_seed": [seed, PROP, "directed", 0], "plan": {"lang": "c", "d1": None, "d2": None, "enum_seed": 1, "lookups_seed": 0, "additions": [[kind, name]]}})
+    for ck in ("partial", "builtin", "object"):
+        for kind, name in (("filters", "yamlfy"), ("filters", "typename"), ("tests", "deprecated"), ("filters", "id"), ("tests", "StructureType")):
+            out.append({"label": "directed-add-%s-%s-%s" % (kind, name, ck), "dsdl_seed": [seed, PROP, "directed", 0], "plan": {"lang": "c", "d1": None, "d2": None, "enum_seed": 1, "lookups_seed": 0, "additions": [[kind, name]], "callable_kind": ck}})
     out.append({"label": "directed-instance-tests", "dsdl_seed": [seed, PROP, "directed", 1], "plan": {"lang": "c", "d1": None, "d2": None, "enum_seed": 2, "lookups_seed": 1, "additions": [], "instance_tests": True}})
     return out
 
@@ -241,6 +244,7 @@ def run_case(case: dict, ctx: dict) -> dict:
             "additions": adds,
             "instance_tests": r.chance(1, 4),
             "conventional_names": r.chance(1, 2),
+            "callable_kind": r.weighted([("function", 3), ("partial", 1), ("builtin", 1), ("object", 1)]),
             "unreadable_user_template": r.below(1000) + 1 if r.chance(1, 3) else 0,
             "root": r.choice(list(roots)),
         }
@@ -319,6 +323,23 @@ def run_case(case: dict, ctx: dict) -> dict:
 
             conv = {"filters": "filter_%s", "tests": "is_%s"}.get(kind)
             s = make("%s-%s" % (kind, name), conv % name if conv and plan.get("conventional_names") else None) if kind != "globals" else "SENTINEL-GLOBAL-%s" % name
+            # what the user hands over need not be a plain function: a functools.partial, a built-in, an object with __call__
+            ck = plan.get("callable_kind") or "function"
+            if kind != "globals" and ck == "partial":
+                import functools
+
+                s = functools.partial(s, "bound")
+            elif kind != "globals" and ck == "builtin":
+                s = {"filters": str, "tests": callable}[kind]
+            elif kind != "globals" and ck == "object":
+                class UserCallable:
+                    def __init__(self, fn: typing.Callable) -> None:
+                        self.fn = fn
+
+                    def __call__(self, *a: typing.Any, **k: typing.Any) -> typing.Any:
+                        return self.fn(*a, **k)
+
+                s = UserCallable(s)
             sentinels[(kind, name)] = s
             add_kw["additional_" + kind][name] = s
         gen2 = None
